@@ -9,6 +9,7 @@ names are where the code violates the property: witnesses below, known findings 
 props/C20/findings.json. Directory deletes and renames are covered by the correspondence check.
 -/
 import SwV.Model.C18
+import SwV.Gen.C20
 import SwV.Spec.C20
 import SwV.Lemmas.C18
 import SwV.Lemmas.C20
@@ -253,5 +254,18 @@ theorem recursive_delete_leaks_witness :
     let s := run {} [.create ["c", "a"] { isDir := false, tag := 1, chunks := [1], hl := 0, cnt := 0 } false, .link ["c", "a"] ["b", "a"] 1]
     let r := step s (.delete ["a"] true false true)
     r.2.d = [] ∧ r.1.ents = [] ∧ kvGet r.1 1 = none ∧ (find s ["c", "a"]).map (·.chunks) = some [1] := by decide
+
+/-! ### tie to the source (T1): the Go functions this model mirrors are the ones it was written against -/
+
+/-- a source edit of any mirrored function changes its hash and breaks this obligation (the model must then be
+    re-read against the code; the correspondence check says whether behaviour changed) -/
+theorem bridge_source_pins :
+    SwV.Gen.C20.src_deleteChunksIfNotNew = "6b3cb0842e738714" ∧
+    SwV.Gen.C20.src_DeleteChunks = "88bfe861e0a50798" ∧
+    SwV.Gen.C20.src_DirectDeleteChunks = "5df7fcdecfc7c2e8" ∧
+    SwV.Gen.C20.src_maybeDeleteHardLinks = "bf08d6d6b3dd8d8d" ∧
+    SwV.Gen.C20.src_DeleteEntryMetaAndData = "d2c3c47d2d5354d7" ∧
+    SwV.Gen.C20.src_doBatchDeleteFolderMetaAndData = "b5846477150726cb" := by
+  decide
 
 end SwV.Props.C20
